@@ -29,6 +29,8 @@ func main() {
 	flag.StringVar(&a.Tree, "tree", "", "tree hash")
 	flag.StringVar(&replay, "replay", "", "replay a file literally")
 	known := flag.String("known", "", "comma separated open known-finding keys")
+	flag.StringVar(&a.Progress, "progress", "", "file holding the index of the run in flight")
+	flag.IntVar(&a.GenOnly, "gen", -1, "only generate this run's case into -out")
 	list := flag.Bool("list", false, "list properties")
 	flag.Parse()
 	if *list {
